@@ -81,7 +81,7 @@ static void * relay_signaler(void * a) {
   return 0;
 }
 static void run_relay(void) {
-  myth_uncond_init(&u);
+  h_uncond_init(&u);
   myth_thread_t w0 = myth_create(relay_waiter, (void *)0), w1 = myth_create(relay_waiter, (void *)1), sg = myth_create(relay_signaler, 0);
   myth_join(sg, 0); myth_join(w0, 0); myth_join(w1, 0);
   for (int r = 0; r < cur->n; r++) MV_CHECK(rv_resumed[r] == 1, "rendezvous %d: waiter passed %d times", r, rv_resumed[r]);
@@ -93,7 +93,7 @@ static void run(int tier, int prog) {
   build(); cur = &P[tier][prog];
   mv_start(cur->W);
   if (cur->relay) { run_relay(); return; }
-  myth_uncond_init(&u);
+  h_uncond_init(&u);
   myth_thread_t a, b; void * r = 0;
   if (cur->order) { b = myth_create(consumer, 0); a = myth_create(producer, 0); } else { a = myth_create(producer, 0); b = myth_create(consumer, 0); }
   myth_join(a, 0); myth_join(b, &r);
